@@ -80,6 +80,8 @@ class C08(Prop):
             "close_timeout": st.sampled_from([None, None, 0, 30.0]),
             # an earlier connection in the same process (same WebSocket object or another one) and how it ended
             "prelude": gen.prelude(),
+            # a second live connection in the same process (interleaved with this one, or blocked in a send)
+            "companion": gen.companion(),
         })
 
     def enumerations(self, tier):
